@@ -1255,8 +1255,7 @@ class Interp(object):
             scope.set(t.id, v)
             return
         if isinstance(t, (ast.Tuple, ast.List)):
-            if isinstance(v, PVec):
-                v = v.parts
+            v = self.seq(v)
             if not isinstance(v, (tuple, list)) or len(v) != len(t.elts):
                 raise Undecided('tuple assignment of %r' % (v,))
             for tt, vv in zip(t.elts, v):
@@ -1302,7 +1301,8 @@ class Interp(object):
                     return
                 if isinstance(idx, slice):
                     n = len(obj.items[idx])
-                    vals = v.items if isinstance(v, SArr) else [v] * n
+                    vals = v.items if isinstance(v, SArr) else (
+                        list(v) if isinstance(v, (list, tuple)) else [v] * n)
                     if len(vals) == 1 and n != 1:
                         vals = vals * n
                     if len(vals) != n:
@@ -2007,6 +2007,8 @@ class Interp(object):
                 return int(v.constant())
             if isinstance(v, Rat) and not v.is_const():
                 return v        # a symbolic count: integral by assumption
+            if isinstance(v, (tuple, list, dict)) or v is None:
+                raise PyRaise('TypeError')
             raise Undecided('int(%r)' % (v,))
         if name == 'float' or name == 'complex':
             v = args[0]
